@@ -2,7 +2,7 @@
    strict domain; proved by a simulation between interpreter states. *)
 From Coq Require Import List ZArith Bool Lia.
 Import ListNotations.
-From Verif Require Import Val CounterSyntax ClassCounters Counters NumberingSpec CountersProofs.
+From Verif Require Import Val CounterSyntax FormatParse ClassCounters Counters NumberingSpec CountersProofs FormatParseProofs.
 Local Open Scope Z_scope.
 
 (* ---------------------------------------------------------------------------------------------- *)
@@ -1171,11 +1171,23 @@ Section Events2.
     left. cbn [s_the]. apply lookup_name_none. intro H. apply H3. apply (sim_the_dom _ _ _ Sm). exact H.
   Qed.
 
+  Lemma letters_word_name : forall nm, nm <> [] -> forallb is_letter nm = true -> word_name nm.
+  Proof.
+    intros nm Hne H. split; [exact Hne|]. rewrite forallb_forall in *. intros c Hc. specialize (H c Hc).
+    unfold is_letter in H. unfold is_word. apply orb_true_iff in H. destruct H as [H|H]; rewrite H; rewrite ?orb_true_r; reflexivity.
+  Qed.
+
+  Lemma fresh_word_name : forall nm ss, fresh_name nm ss = true -> word_name nm.
+  Proof.
+    intros nm ss H. unfold fresh_name in H. repeat (apply andb_true_iff in H; destruct H as [H ?]).
+    apply letters_word_name; [destruct nm; [discriminate | discriminate] | assumption].
+  Qed.
+
   Lemma newcounter_sim : forall nm within, event_sim cls depth (ENewCounter nm within).
   Proof.
     intros nm within ms ss ss1 o Sm Hs. cbn [spec_event] in Hs.
     destruct (fresh_name nm ss) eqn:Hf; [|discriminate]. cbn [negb] in Hs.
-    cbn [run_event]. unfold default_fmt.
+    cbn [run_event]. unfold default_fmt. rewrite (default_format_parse nm (fresh_word_name _ _ Hf)).
     destruct within as [w|].
     - destruct (mem w (map fst (s_vals ss)) && negb (is_nil w) && negb (mem w enum_names)) eqn:Hc; [|discriminate].
       injection Hs as <- <-. apply andb_true_iff in Hc. destruct Hc as [Hc H3]. apply andb_true_iff in Hc. destruct Hc as [H1 H2].
@@ -1201,14 +1213,16 @@ Section Events2.
       eexists _, []. split; [reflexivity|]. split; [reflexivity|].
       apply envs_update_sim; [exact Sm|]. intros c' Hc'. injection Hc' as <-. split; [apply mem_In; exact H1 | apply negb_true_iff; exact H3].
     - (* numbered within w *)
-      destruct (mem w (map fst (s_vals ss)) && negb (is_nil w) && negb (mem w enum_names) && negb (name_eqb nm (the_str ++ w))) eqn:Hc; [|discriminate].
+      destruct (mem w (map fst (s_vals ss)) && negb (is_nil w) && forallb is_letter w && negb (mem w enum_names) && negb (name_eqb nm (the_str ++ w))) eqn:Hc; [|discriminate].
       injection Hs as <- <-. apply andb_true_iff in Hc. destruct Hc as [Hc H4]. apply andb_true_iff in Hc. destruct Hc as [Hc H3].
-      apply andb_true_iff in Hc. destruct Hc as [H1 H2].
+      apply andb_true_iff in Hc. destruct Hc as [Hc H5]. apply andb_true_iff in Hc. destruct Hc as [H1 H2].
       destruct w as [|wh wt]; [discriminate|]. cbn [truthy].
       apply negb_true_iff in H4. apply name_eqb_neq in H4. apply negb_true_iff in H3.
       destruct (declare_sim ms ss nm (Some (wh :: wt)) (chain (wh :: wt) nm) (mchain (wh :: wt) nm) Sm Hf) as (E & Sm1 & Hd & He).
       { intros w' Hw'. injection Hw' as <-. split; [apply mem_In; exact H1|]. split; [discriminate | exact H3]. }
       { intros. constructor; [exact H4 | exact H3]. }
+      assert (Hww : word_name (wh :: wt)) by (apply letters_word_name; [discriminate | exact H5]).
+      rewrite (theorem_format_parse (wh :: wt) nm Hww (fresh_word_name _ _ Hf)).
       match goal with |- context [newcounter nm ?a ?f false ms] =>
         change (newcounter nm a f false ms) with (newcounter nm (Some (wh :: wt)) (mchain (wh :: wt) nm) false ms) end.
       rewrite E.
@@ -1221,7 +1235,7 @@ Section Events2.
     - (* own counter *)
       injection Hs as <- <-. cbn [truthy].
       destruct (declare_sim ms ss nm None [SNum RArabic nm] [PRef nm None] Sm Hf) as (E & Sm1 & Hd & He); [intros w' Hw'; discriminate | intros; constructor |].
-      unfold default_fmt. rewrite E.
+      unfold default_fmt. rewrite (default_format_parse nm (fresh_word_name _ _ Hf)). rewrite E.
       eexists _, []. split; [reflexivity|]. split; [reflexivity|].
       apply (envs_update_sim cls _ _ nm (Some nm) Sm1). intros c' Hc'. injection Hc' as <-. split; [|exact He].
       unfold dom. cbn [s_vals]. rewrite map_app. exact Hd.
@@ -2342,4 +2356,27 @@ Proof.
   destruct (events_sim cls depth Hc Hd _ (init_state cls) ss0 [] [] ss1 _ Sm0 eq_refl Es) as (ms1 & mo & Em & Ho & _).
   exists ms1. unfold number_doc. rewrite Em. f_equal. f_equal. symmetry. apply outs_agree_eq; [|exact Ho].
   intros k r Hin. cbn [app] in Hin. unfold item_outs in Hin. apply in_map_iff in Hin. destruct Hin as (x & Hx & _). injection Hx as <- _. discriminate.
+Qed.
+
+(* ---------------------------------------------------------------------------------------------- *)
+(** * The format strings of the shipped classes (re-proved against the regenerated table) *)
+
+(* the Model's scanner parses every format string of article / report / book (and of their \appendix) to what Python's re
+   -- applied by the translator exactly as TheCounter.invoke applies it -- makes of it *)
+Theorem class_formats_parse : forall s f, In (s, f) gen_format_strings -> parse_format s = f.
+Proof.
+  assert (H : forallb (fun p => fmt_eqb (parse_format (fst p)) (snd p)) gen_format_strings = true) by (vm_compute; reflexivity).
+  intros s f Hin. apply fmt_eqb_eq. exact (forallb_In _ _ _ _ H Hin).
+Qed.
+
+(* ... and every \the<counter> of a freshly loaded class carries the parse of one of these strings *)
+Theorem class_thes_from_source : forall cls k f t, (cls = 0 \/ cls = 1 \/ cls = 2) ->
+  In (k, (f, t)) (m_thes (init_state cls)) -> exists s, In (s, f) gen_format_strings /\ parse_format s = f.
+Proof.
+  intros cls k f t Hc Hin.
+  assert (H : forall c, (c = 0 \/ c = 1 \/ c = 2) ->
+            forallb (fun e => existsb (fun p => fmt_eqb (snd p) (fst (snd e))) gen_format_strings) (m_thes (init_state c)) = true).
+  { intros c [-> | [-> | ->]]; vm_compute; reflexivity. }
+  pose proof (forallb_In _ _ _ _ (H cls Hc) Hin) as Hx. cbn [fst snd] in Hx. apply existsb_exists in Hx.
+  destruct Hx as ([s g] & Hg & E). cbn [snd] in E. apply fmt_eqb_eq in E. subst g. exists s. split; [exact Hg | apply class_formats_parse; exact Hg].
 Qed.
